@@ -191,6 +191,139 @@ def m_part(run, scr, nat):
     if n_q_ok < 2:
         run.inconclusive.append("ScaledQuantity::try_add: expected success paths with and without conversion, found %d" % n_q_ok)
 
+    # ---- GroupedQuantity::add: one step from a symbolic group state; the sum itself is ScaledQuantity::try_add (above),
+    #      summarised here as an opaque "sum of (stored, q)" token or a refusal
+    from mir import MapVal, MapElemRef
+    f_gq_add = c.dump.find_impl_method("add", r"\(_1: &mut GroupedQuantity, _2: &quantity::Quantity, _3: &Converter\)")
+    run.functions.append("quantity::GroupedQuantity::add (MIR)")
+    gqf = decls.structs["GroupedQuantity"]
+    pqn = [v for v, _ in decls.enums["PhysicalQuantity"]]
+    sem.decls.append("(declare-const ta_ok Bool)")
+    sem.decls.append("(declare-const key_same Bool)")
+    info_tag = sem.sym_int("info_tag", "isize", 0, 1)
+    info_pq = sem.sym_int("info_pq", "isize", 0, len(pqn) - 1)
+    qv = c08.sym_value(c, "q")
+    q_text = "(= %s %d)" % (qv.discr.expr, qv.idx["Text"])
+    q_unit = Opaque("unit text of q")
+    has_unit = sem.sym_int("q_has_unit", "isize", 0, 1)
+    Q = Agg("Quantity", {str(qf.index("value")): qv, str(qf.index("unit")): models.mk_option(it, SV("isize", has_unit), q_unit)})
+
+    def stored(name):
+        tag = sem.sym_int(name + "_some", "isize", 0, 1)
+        tok = Opaque("stored quantity " + name)
+        return models.mk_option(it, SV("isize", tag), tok), tag, tok
+    known = [stored("known%d" % i) for i in range(len(pqn))]
+    nounit = stored("nounit")
+    unk_tok = Opaque("stored unknown-unit quantity")
+    unk_key = Opaque("key of the stored unknown-unit quantity")
+    other0 = [Opaque("other entry 0")]
+    group = Agg("GroupedQuantity", {
+        str(gqf.index("known")): VecVal([k[0] for k in known]),
+        str(gqf.index("unknown")): MapVal([(unk_key, unk_tok)]),
+        str(gqf.index("no_unit")): nounit[0],
+        str(gqf.index("other")): VecVal(other0)})
+    uf = decls.structs.lookup("Unit", "convert")
+    unit_info = models.mk_option(it, SV("isize", info_tag), Agg("Unit", {str(uf.index("physical_quantity")): SV("isize", info_pq)}))
+    sums = []
+
+    def m_sum(it_, a, callee):
+        st = it_.deref(a[0], it_.cur_env)
+        tok = Opaque("sum", [st, a[1]])
+        sums.append(tok)
+        return [(["ta_ok"], it_._mk_enum("Result", "Ok", [tok]), "return", None),
+                (["(not ta_ok)"], it_._mk_enum("Result", "Err", [Opaque("QuantityAddError")]), "return", None)]
+
+    def m_enum_index_mut(it_, a, callee):
+        key = a[1]
+        vec = it_.deref(a[0], it_.cur_env)
+        return [(["(= %s %d)" % (key.expr, i)], mir.ElemRef(a[0], i), "return", None) for i in range(len(vec.items))]
+
+    def m_map_get_mut(it_, a, callee):
+        mp = it_.deref(a[0], it_.cur_env)
+        if len(mp.entries) != 1:
+            raise mir.Unsupported("abstract map with %d entries" % len(mp.entries))
+        return [(["key_same"], it_._mk_enum("Option", "Some", [MapElemRef(a[0], 0)]), "return", None),
+                (["(not key_same)"], it_._mk_enum("Option", "None", []), "return", None)]
+
+    def m_map_insert(it_, a, callee):
+        mp = it_.deref(a[0], it_.cur_env)
+        it_.write_ref(a[0], MapVal(mp.entries + [(a[1], a[2])]), it_.cur_env)
+        return it_._mk_enum("Option", "None", [])
+    gq_models = {
+        r"^quantity::Quantity::try_add$": m_sum,
+        r"^quantity::Quantity::unit_info$": lambda it_, a, cal: unit_info,
+        r"^quantity::Quantity::unit$": lambda it_, a, cal: models.mk_option(it_, SV("isize", has_unit), q_unit),
+        r"^std::option::Option::<&str>::unwrap$": lambda it_, a, cal: [(["(= q_has_unit 1)"], q_unit, "return", None),
+                                                                        (["(= q_has_unit 0)"], None, "panic", "unwrap on None")],
+        r"^std::option::Option::<std::string::String>::is_none$": lambda it_, a, cal: SV("bool", "(= %s 0)" % it_.deref(a[0], it_.cur_env).discr.expr),
+        r"^<std::sync::Arc<convert::Unit> as Deref>::deref$": models.m_identity,
+        r"^<enum_map::EnumMap<.*> as IndexMut<convert::PhysicalQuantity>>::index_mut$": m_enum_index_mut,
+        r"^std::collections::HashMap::<std::string::String, quantity::Quantity>::get_mut::<str>$": m_map_get_mut,
+        r"^std::collections::HashMap::<std::string::String, quantity::Quantity>::insert$": m_map_insert,
+        r"^<str as ToString>::to_string$": models.m_identity,
+    }
+    saved = dict(it.models)
+    it.models.update(gq_models)
+    for o in it.run(f_gq_add, [group, Q, Opaque("converter")]):
+        p = ">".join(o.trace[-3:])
+        if o.kind == "panic":
+            ob("GroupedQuantity::add never panics (%s)" % str(o.msg)[:40], o.pc, "true")
+            continue
+        if o.kind != "return":
+            continue
+        after = o.env["_1"]
+        kn = after.fields[str(gqf.index("known"))].items
+        um = after.fields[str(gqf.index("unknown"))].entries
+        nu = after.fields[str(gqf.index("no_unit"))]
+        ot = after.fields[str(gqf.index("other"))].items
+
+        def bucket(new, old_opt, old_tag, old_tok):
+            """new Option<Q> is the bucket after adding q: Some(q) if it was empty, Some(sum(old,q)) if the add worked, untouched
+            (and q pushed aside) if the add was refused"""
+            if not isinstance(new, Enum):
+                return "false", "false"
+            inner = new.variants["Some"].fields["0"] if "Some" in new.variants else None
+            took = "false"
+            if inner is not None:
+                is_q = c08.same(inner, Q)
+                is_sum = "true" if (isinstance(inner, Opaque) and inner.what == "sum" and inner.args[0] is old_tok and inner.args[1] is Q) else "false"
+                took = "(and (= %s 1) (or (and (= %s 0) %s) (and (= %s 1) ta_ok %s)))" % (new.discr.expr, old_tag, is_q, old_tag, is_sum)
+            refused = "(and (= %s 1) (not ta_ok) %s)" % (old_tag, c08.same(new, old_opt))
+            return took, refused
+        same_known = lambda skip: c08.conj([c08.same(kn[i], known[i][0]) for i in range(len(pqn)) if i != skip])
+        same_unknown = "true" if (len(um) == 1 and um[0][0] is unk_key and um[0][1] is unk_tok) else "false"
+        same_nounit = c08.same(nu, nounit[0])
+        other_same = "true" if (len(ot) == 1 and ot[0] is other0[0]) else "false"
+        other_plus_q = c08.same(ot[1], Q) if (len(ot) == 2 and ot[0] is other0[0]) else "false"
+        cases = []
+        # text: kept verbatim in `other`
+        cases.append(c08.conj([q_text, other_plus_q, same_known(-1), same_unknown, same_nounit]))
+        # no unit
+        took, refused = bucket(nu, nounit[0], nounit[1], nounit[2])
+        cases.append("(and (not %s) (= q_has_unit 0) %s %s (or (and %s %s) (and %s %s)))" % (
+            q_text, same_known(-1), same_unknown, took, other_same, refused, other_plus_q))
+        # known unit of physical quantity i
+        for i in range(len(pqn)):
+            took, refused = bucket(kn[i], known[i][0], known[i][1], known[i][2])
+            cases.append("(and (not %s) (= q_has_unit 1) (= info_tag 1) (= info_pq %d) %s %s %s (or (and %s %s) (and %s %s)))" % (
+                q_text, i, same_known(i), same_unknown, same_nounit, took, other_same, refused, other_plus_q))
+        # unknown unit: same key as the stored one, or a new key
+        if len(um) == 1 and um[0][0] is unk_key:
+            inner = um[0][1]
+            is_sum = "true" if (isinstance(inner, Opaque) and inner.what == "sum" and inner.args[0] is unk_tok and inner.args[1] is Q) else "false"
+            stay = "true" if inner is unk_tok else "false"
+            cases.append("(and (not %s) (= q_has_unit 1) (= info_tag 0) key_same %s %s (or (and ta_ok %s %s) (and (not ta_ok) %s %s)))" % (
+                q_text, same_known(-1), same_nounit, is_sum, other_same, stay, other_plus_q))
+        if len(um) == 2 and um[0][0] is unk_key and um[0][1] is unk_tok:
+            cases.append("(and (not %s) (= q_has_unit 1) (= info_tag 0) (not key_same) %s %s %s %s)" % (
+                q_text, same_known(-1), same_nounit, other_same,
+                c08.conj(["true" if um[1][0] is q_unit else "false", c08.same(um[1][1], Q)])))
+        ob("GroupedQuantity::add path[%s]: q lands in exactly one bucket (text aside | unitless | its physical quantity | its unknown unit): "
+           "stored alone, summed into what is there, or kept aside when it cannot be added; every other bucket untouched" % p,
+           o.pc, "(not (or %s))" % " ".join(cases))
+    it.models.clear()
+    it.models.update(saved)
+
     # ---- GroupedValue::add: one step from every valid shape (<= 1 non-text value, and only at index 0)
     def text(k):
         names = [v for v, _ in decls.enums["Value"]]
@@ -302,7 +435,7 @@ def m_part(run, scr, nat):
     run.bounds.append("M: loop-free CFGs, all paths; 6 group shapes x 3 kinds of added value")
     D = list(sem.decls)
     batch = mcheck.Batch(c.ms, "c10", D, timeout_s=120 if run.tier == "quick" else 600, deltas=sem.deltas)
-    INPUTS = ["a_tag", "b_tag", "h_tag", "g_tag", "cv_tag", "compatible", "convert_ok", "a_n_tag", "a_n_reg", "b_n_tag", "b_n_reg", "h_n_tag", "h_n_reg", "a_s_reg", "a_e_reg", "b_s_reg", "b_e_reg"]
+    INPUTS = ["a_tag", "b_tag", "h_tag", "g_tag", "cv_tag", "compatible", "convert_ok", "ta_ok", "key_same", "info_tag", "info_pq", "q_tag", "q_has_unit", "a_n_tag", "a_n_reg", "b_n_tag", "b_n_reg", "h_n_tag", "h_n_reg", "a_s_reg", "a_e_reg", "b_s_reg", "b_e_reg"]
 
     def on_sat(name):
         def cb(model, obl, item):
